@@ -30,19 +30,19 @@ CHECKS = {
    "Held on the executions produced.",
    "runtime monitoring: reference transformer model at the service boundary", "DESIGN.md#c12"),
  "C02": ("exploration",
-   "Drives the real generated client against the real generated server with script-defined handlers for all four call shapes; compares the client-visible history with a reference model of the shapes and the handler-side log with what the caller sent. Quick: in-process loopback transport whose bodies are re-chunked/merged with injected Pending. Both tiers also run the scripts over real Endpoint/Server HTTP/2 on fragmenting pipes with tiny windows on a paused clock. Handler streams may continue after their error item and every body is probed after its trailers; some response streams are reset before any status (never a success); a few messages exceed the 4 MiB default through cloned, reconfigured clients.",
+   "Drives the real generated client against the real generated server with script-defined handlers for all four call shapes; compares the client-visible history with a reference model of the shapes and the handler-side log with what the caller sent. Quick: in-process loopback transport whose bodies are re-chunked/merged with injected Pending. Both tiers also run the scripts over real Endpoint/Server HTTP/2 on fragmenting pipes with tiny windows on a paused clock. Handler streams may continue after their error item and every body is probed after its trailers; some response streams are reset before any status (never a success); a few messages exceed the 4 MiB default through cloned, reconfigured clients; a third of the bidirectional calls are interactive ping-pong calls (request i+1 only after reply i was read; a stall is a violation), handler streams and bodies may report exact size hints, some messages are 70/140 KB.",
    "Held on the executions produced; metadata compared by inclusion because tonic legitimately adds headers.",
    "runtime monitoring: reference model of the call shapes at client and handler boundaries", "DESIGN.md#c02"),
  "C13": ("fault_enumeration",
-   "Runs the real serve_with_incoming_shutdown against real channels over fragmenting in-memory pipes on a paused clock; the shutdown signal is placed on (and next to) every phase boundary of 1..6 scripted concurrent calls on 1..3 connections, or fired in the same accept-loop iteration that takes a connection; an offline checker over the recorded event log decides loss of accepted calls, acceptance after the signal, resolve-before-close and bounded (3600 virtual s) resolution.",
+   "Runs the real serve_with_incoming_shutdown against real channels over fragmenting in-memory pipes on a paused clock; the shutdown signal is placed on (and next to) every phase boundary of 1..6 scripted concurrent calls on 1..3 connections, or fired in the same accept-loop iteration that takes a connection; an offline checker over the recorded event log decides loss of accepted calls, acceptance after the signal, resolve-before-close and bounded (3600 virtual s) resolution. A second monitor shuts a TLS server down gracefully while a transport connection that never began its handshake is still open: the serve future must resolve once the accepted connections closed.",
    "Held on the schedules produced (virtual time, tokio select! branch order is not seedable); benign close model (no RST) in the pipe; server windows below the HTTP/2 default only on pre-established connections (h2 stalls otherwise, see DESIGN.md).",
    "runtime monitoring: offline event-log checker over signal placements in virtual time", "DESIGN.md#c13"),
  "C14": ("fault_enumeration",
-   "Enumerates (thorough: all 1800; quick: a seeded sample) short scripts over {connect fails, connect succeeds, established connection reset} x lazy/eager plus sampled longer ones; a scripted connector feeds the real Channel and a real server; each call is judged by a reference model driven by the connector invocations actually observed during that call; sampled scripts add two concurrent calls on cloned clients (failed calls <= failed attempts observed) and calls whose connection is dropped in flight; hangs are decided in virtual time.",
+   "Enumerates (thorough: all 1800; quick: a seeded sample) short scripts over {connect fails, connect succeeds, established connection reset} x lazy/eager plus sampled longer ones; a scripted connector feeds the real Channel and a real server; each call is judged by a reference model driven by the connector invocations actually observed during that call; sampled scripts add two concurrent calls on cloned clients (failed calls <= failed attempts observed) calls whose connection is dropped in flight and calls whose deadline has already expired; hangs are decided in virtual time. Further monitors: real unix/TCP sockets with a server that goes away and comes back, and the fail/recover scripts on a channel whose Endpoint::executor is a thread-per-task executor.",
    "Held on the scripts produced; calls are issued at quiescent points only (as the property says).",
    "runtime monitoring: fault-script enumeration + reference model driven by observed connector invocations", "DESIGN.md#c14"),
  "C05": ("exploration",
-   "Walks all 16x16 ordered send/accept configurations of the generated server and all client configurations, feeding grpc-accept-encoding / grpc-encoding values from a grammar and frames flagged 0/1; a negotiation model written from the property text judges response encoding, announcements, refusals (UNIMPLEMENTED + advertised set), INTERNAL on unnegotiated flag 1, and what the client sends and advertises; payloads are decompressed by an independent decompressor.",
+   "Walks all 16x16 ordered send/accept configurations of the generated server and all client configurations, feeding grpc-accept-encoding / grpc-encoding values from a grammar and frames flagged 0/1; a negotiation model written from the property text judges response encoding, announcements, refusals (UNIMPLEMENTED + advertised set), INTERNAL on unnegotiated flag 1, and what the client sends and advertises; payloads are decompressed by an independent decompressor; requests may carry caller-supplied negotiation headers; a reference model checks the configuration list type (enable/pop/is_enabled).",
    "Held on the executions produced (configurations exhaustive, header values sampled); case variants of encoding tokens are not generated (property silent).",
    "runtime monitoring: negotiation reference model over configuration grid + header grammar", "DESIGN.md#c05"),
  "C09": ("exploration",
@@ -78,7 +78,7 @@ CHECKS = {
    "Held on the executions produced; HTTP/2 pseudo-headers and END_STREAM flags are below the tapped boundary in the quick tier (hyper/h2 produce them).",
    "runtime monitoring: wire taps + two independent decoders (Rust reference parser, offline Python judge over the recorded log)", "DESIGN.md#c03"),
  "C15": ("fault_enumeration",
-   "Enumerates the whole TLS configuration matrix (864 cells + https-without-TLS cases) on every run with real rustls handshakes between the real Endpoint/ClientTlsConfig and either tonic's own Server::tls_config or a harness acceptor with a chosen ALPN, over the in-memory pipe; a decision table written from the property text predicts success, a handler counter and a byte tap of the client's first bytes observe leakage, and the handler reports Request::peer_certs().",
+   "Enumerates the whole TLS configuration matrix (864 cells + https-without-TLS cases) on every run with real rustls handshakes between the real Endpoint/ClientTlsConfig and either tonic's own Server::tls_config or a harness acceptor with a chosen ALPN, over the in-memory pipe; a decision table written from the property text predicts success, a handler counter and a byte tap of the client's first bytes observe leakage, and the handler reports Request::peer_certs(). Further monitors: several peers with different identities on one server (each handler sees its own connection's chain), and Channel::balance_list over loopback TCP with two TLS servers (each endpoint authenticates with its own TLS settings; the server behind a misconfigured endpoint is never reached).",
    "Exhaustive over the stated matrix, not over certificates (one PKI under fixtures/pki, 2020-2120); for the ALPN none/http1.1 rows the server-side TLS is the harness's rustls configuration (tonic's server always offers h2).",
    "runtime monitoring: exhaustive configuration matrix + decision-table oracle + wire tap", "DESIGN.md#c15"),
  "C11": ("exploration",
